@@ -484,3 +484,141 @@ def explore_consts(body, env0, on_call, max_nodes=20000):
         for s_ in succ:
             work.append((s_, et))
     return n
+
+
+def explore_paths(body, env0=None, place_fn=None, on_call=None, on_return=None, store_key=None, variant_index=None, max_nodes=40000):
+    """Path-sensitive propagation of known scalars and enum variants over the CFG of `body` (a generalisation of
+    explore_consts).  The environment maps
+        local            -> known scalar (int / bool as 0|1)
+        ('variant', l)   -> variant of the enum value held by local l (an index where variant_index can tell, else the name)
+        ('store', key)   -> variant last stored into a tracked place (see store_key), 'unknown' if it cannot be told
+    place_fn(canonical place json) -> ('val', v) | ('variant', v) | None gives what is known about a projected place that
+    is read (a captured flag, a field of self); store_key(canonical place json) -> hashable | None selects the projected
+    places whose stores are tracked.  on_call(bb, term, env) may return {'val': v} / {'variant': v} to describe the
+    call's result.  on_return(bb, env) is called at every return reached.  Switches on known values follow one
+    successor, others all; loops are cut by memoising (block, environment)."""
+    env0 = dict(env0 or {})
+    seen = set()
+    work = [(0, tuple(sorted(env0.items(), key=str)))]
+    n = 0
+
+    def vidx(rv):
+        v = rv.get("variant")
+        if variant_index is not None:
+            i = variant_index(rv.get("name"), v)
+            if i is not None:
+                return i
+        return v
+
+    def known(env, o):
+        """(val, variant) of an operand"""
+        if o.get("k") == "const":
+            return (o.get("val") if "val" in o else None), o.get("variant")
+        p = o.get("place")
+        if p is None:
+            return None, None
+        if not p["p"]:
+            return env.get(p["l"]), env.get(("variant", p["l"]))
+        cp = body.canon_place(p)
+        if not cp["p"]:
+            return env.get(cp["l"]), env.get(("variant", cp["l"]))
+        if place_fn is not None:
+            r = place_fn(cp)
+            if r is not None:
+                return (r[1], None) if r[0] == "val" else (None, r[1])
+        # `*tmp` where tmp is a copy of a known local reference is not tracked
+        return None, None
+
+    while work:
+        bb, envt = work.pop()
+        if (bb, envt) in seen:
+            continue
+        seen.add((bb, envt))
+        n += 1
+        if n > max_nodes:
+            raise Undecided("too many (block, constants) states")
+        env = dict(envt)
+        blk = body.blocks[bb]
+        for st in blk["stmts"]:
+            if st["k"] != "assign":
+                continue
+            p = st["place"]
+            rv = st["rv"]
+            val = var = None
+            if rv["k"] in ("use", "cast"):
+                val, var = known(env, rv["op"])
+                if rv["k"] == "cast":
+                    var = None
+            elif rv["k"] == "discr":
+                _, v_ = known(env, {"k": "copy", "place": rv["place"]})
+                if isinstance(v_, int):
+                    val = v_
+            elif rv["k"] == "agg" and rv.get("akind") == "adt":
+                var = vidx(rv)
+            elif rv["k"] == "un" and str(rv.get("op")) == "Not":
+                v0, _ = known(env, rv["a"])
+                val = (0 if v0 else 1) if v0 is not None else None
+            elif rv["k"] == "bin" and str(rv.get("op")) in ("Eq", "Ne", "BitAnd", "BitOr", "Lt", "Le", "Gt", "Ge"):
+                a_, _ = known(env, rv["a"])
+                b_, _ = known(env, rv["b"])
+                op = str(rv["op"])
+                if a_ is not None and b_ is not None:
+                    val = {"Eq": a_ == b_, "Ne": a_ != b_, "BitAnd": a_ & b_, "BitOr": a_ | b_, "Lt": a_ < b_, "Le": a_ <= b_, "Gt": a_ > b_, "Ge": a_ >= b_}[op]
+                    val = int(val)
+                elif op == "BitAnd" and 0 in (a_, b_):
+                    val = 0
+                elif op == "BitOr" and 1 in (a_, b_):
+                    val = 1
+            if p["p"]:
+                key = store_key(body.canon_place(p)) if store_key is not None else None
+                if key is not None:
+                    env[("store", key)] = var if var is not None else "unknown"
+                elif not any(e == "*" for e in p["p"]):
+                    env.pop(p["l"], None)
+                    env.pop(("variant", p["l"]), None)
+                continue
+            env.pop(p["l"], None)
+            env.pop(("variant", p["l"]), None)
+            if val is not None:
+                env[p["l"]] = val
+            if var is not None:
+                env[("variant", p["l"])] = var
+        t = blk["term"]
+        if t is None:
+            continue
+        k = t["k"]
+        succ = []
+        if k == "switch":
+            v, _ = known(env, t["discr"])
+            if v is not None and not isinstance(v, str):
+                nxt = t["otherwise"]
+                for val_, tgt in t["targets"]:
+                    if val_ == int(v):
+                        nxt = tgt
+                succ = [nxt]
+            else:
+                succ = [x[1] for x in t["targets"]] + [t["otherwise"]]
+        elif k == "call":
+            r = on_call(bb, t, env) if on_call is not None else None
+            if not t["dest"]["p"]:
+                env.pop(t["dest"]["l"], None)
+                env.pop(("variant", t["dest"]["l"]), None)
+                if isinstance(r, dict):
+                    if r.get("val") is not None:
+                        env[t["dest"]["l"]] = r["val"]
+                    if r.get("variant") is not None:
+                        env[("variant", t["dest"]["l"])] = r["variant"]
+            if t.get("target") is not None:
+                succ = [t["target"]]
+        elif k == "return":
+            if on_return is not None:
+                on_return(bb, env)
+        elif k in ("goto", "drop", "assert"):
+            if t.get("target") is not None:
+                succ = [t["target"]]
+        elif k == "other":
+            succ = list(t.get("succ", []))
+        et = tuple(sorted(env.items(), key=str))
+        for s_ in succ:
+            work.append((s_, et))
+    return n
